@@ -16,10 +16,12 @@ pub enum ClClass {
     Num(u64),
     /// numeric but above u64::MAX: not representable, don't-care
     TooBig,
+    /// comma list of identical valid values: error or that value (recipient's choice)
+    ListOfSame(u64),
     Bad,
 }
 
-pub const CL_VALUES: [(&str, ClClass); 12] = [
+pub const CL_VALUES: [(&str, ClClass); 17] = [
     ("", ClClass::Absent), // absent is encoded by index 0
     ("0", ClClass::Num(0)),
     ("7", ClClass::Num(7)),
@@ -32,6 +34,12 @@ pub const CL_VALUES: [(&str, ClClass); 12] = [
     ("", ClClass::Bad), // present with an empty value (index 9)
     ("7 7", ClClass::Bad),
     ("0x10", ClClass::Bad),
+    // comma lists: a list of identical valid values may be accepted (RFC 9112 6.3), anything else is invalid
+    ("7, 7", ClClass::ListOfSame(7)),
+    ("7, abc", ClClass::Bad),
+    ("abc, 7", ClClass::Bad),
+    ("7,", ClClass::Bad),
+    ("7, 8", ClClass::Bad),
 ];
 
 /// (value, declares chunked, present)
@@ -64,6 +72,9 @@ pub fn framing_table(method: &Method, status: u16, resp_v11: bool, cl: ClClass, 
         return Expect::Err;
     }
     if cl == ClClass::TooBig {
+        return Expect::Any;
+    }
+    if let ClClass::ListOfSame(_) = cl {
         return Expect::Any;
     }
     if status == 100 {
